@@ -1,4 +1,7 @@
 import MindsVerif.Lemmas.TokStr
+import MindsVerif.Lemmas.RawQueryLink
+import MindsVerif.Model.MultiWord
+import MindsVerif.Gen.Valid_mindsdb
 import MindsVerif.Gen.C16Data
 import MindsVerif.Gen.Tables_mindsdb
 /-!
@@ -13,7 +16,7 @@ lexer action left in `t.value`.  "Verbatim up to whitespace and comments" is `ve
 (blanks; `\n` + blanks when the line changed).  `C16_layout_source` relates this to the inner text itself.
 -/
 namespace MindsVerif.Props.C16
-open MindsVerif.TokStr MindsVerif.Gen
+open MindsVerif.TokStr MindsVerif.Gen MindsVerif.LR MindsVerif.RawQueryLink
 
 /-- what the lexer guarantees about a token list: values come from the token actions, and tokens do not
 overlap in the text (a token starts at or after the end of the previous token's source, strictly after
@@ -138,6 +141,91 @@ theorem C16_command (q : RQ) (hl : LexInv C16Data.actCfg q.yield) : queryStr q =
 tokens are the grammar's terminals; every `raw_query` production has one of the four modelled shapes, one
 per token of `all_tokens_list`; everywhere else `raw_query` occurs only as `LPAREN raw_query RPAREN`. -/
 theorem phi16_mindsdb : RawQueryGram.phi16 C16Data.ids Tables_mindsdb.prods = true := by decide +kernel
+
+/-- Φ16 in the form the structural lemmas use (plus: the two parenthesis terminals are different) -/
+theorem phi_mindsdb : Phi C16Data.ids Tables_mindsdb.tables :=
+  phi_of_phi16 phi16_mindsdb (by decide)
+
+/-- **C16_link — one statement across the layers** (LR driver · grammar · `raw_query` actions · `tokens_to_string`).
+Let the model of `Parser.parse` over the regenerated mindsdb tables ACCEPT the terminal numbers `ids` of a token list
+`tks` with tree `t`.  For every node of `t` that is an instance of an embedding production (a node of a nonterminal
+other than `raw_query` with a `raw_query` child `q`): the token list splits as `tpre ++ tl :: (tmid ++ tr :: tpost)`
+where `tl` is that production's `LPAREN`, `tr` the `RPAREN` **matching it** (`closeIdx … = some tmid.length`), `tmid`
+(not empty) is exactly the frontier of `q`; running the four modelled `raw_query` actions along `q` returns `tmid`
+(`v.value = tmid`), so `query_str = tokens_to_string tmid`, and by `C16` it is the verbatim layout of those tokens. -/
+theorem C16_link (mode : Mode) (bad : Bool) (ids : List Nat) (fuel : Nat) (t : PT) (log : List Nat)
+    (h0 : ∀ x ∈ ids, x ≠ 0)
+    (hacc : parse Tables_mindsdb.tables mode bad ids fuel = .accept t log)
+    {pre post : List Nat} {p lhs : Nat} {l r : List PT} {q : PT}
+    (ho : Occ t pre (.node p lhs (l ++ q :: r)) post) (hl : lhs ≠ C16Data.ids.rq) (hq : q.root = C16Data.ids.rqc)
+    (tid : Tok → Nat) (tks : List Tok) (htk : tks.map tid = ids) :
+    ∃ (tpre : List Tok) (tl : Tok) (tmid : List Tok) (tr : Tok) (tpost : List Tok) (v : RQ),
+      tks = tpre ++ tl :: (tmid ++ tr :: tpost) ∧ tid tl = C16Data.ids.lparen ∧ tid tr = C16Data.ids.rparen ∧
+      tmid.map tid = q.yield ∧ tmid ≠ [] ∧
+      closeIdx C16Data.ids 0 ((tmid ++ tr :: tpost).map tid) = some tmid.length ∧
+      toRQ (size q) q (tmid ++ tr :: tpost) = some (v, tr :: tpost) ∧ v.value = tmid ∧
+      queryStr v = tokensToString tmid ∧
+      (LexInv C16Data.actCfg tmid → queryStr v = verbatim tmid) := by
+  have hg := parse_good Tables_mindsdb.valid mode bad ids h0 fuel
+  rw [hacc] at hg
+  obtain ⟨hwf, _, hyield, _, _⟩ := hg
+  obtain ⟨tpre, tl, tmid, tr, tpost, v, h1, h2, h3, h4, h5, h6, h7, h8, h9⟩ :=
+    embed_tokens phi_mindsdb hwf ho hl hq tid tks (by rw [htk, hyield])
+  exact ⟨tpre, tl, tmid, tr, tpost, v, h1, h2, h3, h4, h5, h6, h7, h8, h9, fun hl => by rw [h9]; exact C16 _ hl⟩
+
+/-- non-vacuity of `C16_link`: the driver accepts the tokens of
+`CREATE VIEW v FROM db (select a, f(1) from t where b = '' and (c > 2))` and the tree has an embedding node,
+i.e. all hypotheses of `C16_link` are met -/
+theorem C16_link_nonvacuous : ∃ t log, parse Tables_mindsdb.tables .drain false C16Data.embedSample 10000 = .accept t log ∧
+    (∀ x ∈ C16Data.embedSample, x ≠ 0) ∧
+    ∃ pre post p lhs l q r, Occ t pre (.node p lhs (l ++ q :: r)) post ∧ lhs ≠ C16Data.ids.rq ∧
+      q.root = C16Data.ids.rqc := by
+  have h : (match parse Tables_mindsdb.tables .drain false C16Data.embedSample 10000 with
+    | .accept t _ => hasEmbed C16Data.ids t
+    | _ => false) = true := by decide +kernel
+  cases hp : parse Tables_mindsdb.tables .drain false C16Data.embedSample 10000 with
+  | accept t log =>
+    rw [hp] at h
+    exact ⟨t, log, rfl, by decide, hasEmbed_occ _ _ t (Nat.le_refl _) h⟩
+  | _ => rw [hp] at h; simp at h
+
+/-! ## sepStable: which multi-word keyword tokens are sensitive to a comment being blanked
+
+`tokens_to_string` replaces a comment between two tokens by blanks.  For the multi-word keyword tokens of the live
+lexer (regex sources regenerated in `Gen.C16Data.multiWordRe`, parsed by `MultiWord.parseMW`, matched by
+`MultiWord.mwMatch`) this changes the token sequence exactly for the four `[\s]+` keywords: `W1 /*c*/ W2` is two
+tokens, the stored `W1       W2` is one.  The others (single blank, `[_|\s]`) are stable on every gap tried, because a
+blanked comment is at least two characters long. -/
+section sepStable
+open MindsVerif.MultiWord
+
+def mwTable : List (String × Option MW) := C16Data.multiWordRe.map (fun x => (x.1, parseMW x.2.toList))
+
+/-- every multi-word keyword regex of the live lexer has one of the three modelled forms -/
+theorem mw_parsed : mwTable.all (fun x => x.2.isSome) = true := by decide
+
+def mwOfSep (p : Sep → Bool) : List (String × MW) :=
+  mwTable.filterMap (fun x => match x.2 with | some k => if p k.sep then some (x.1, k) else none | none => none)
+
+/-- the `[\s]+` keywords -/
+theorem mw_plus_kinds : (mwOfSep (· == .plus)).map (·.1) = ["IS_NOT", "NOT_EXISTS", "NOT_IN", "NOT_LIKE"] := by decide
+
+/-- comment gaps (with: does `lineno` change inside) -/
+def commentGaps : List (Str × Bool) :=
+  [(" /*c*/ ".toList, false), ("/**/".toList, false), (" -- c\n".toList, true), ("--\n".toList, true),
+   ("/* a\nb */".toList, false), ("\n/*c*/\n ".toList, true)]
+
+/-- witnesses (not stable): for each `[\s]+` keyword and each comment gap, `W1<gap>W2` is NOT the keyword token but the
+stored text `W1<blanks>W2` IS -/
+theorem sepStable_witness_plus : (mwOfSep (· == .plus)).all (fun x => commentGaps.all (fun g =>
+    (mwMatch x.2 none (sample x.2 g.1)).isNone && (mwMatch x.2 none (sample x.2 (blanked g.1 g.2))).isSome)) = true := by
+  decide
+
+/-- the other multi-word keywords are stable on all these gaps (and the keyword is recognised with its own separator) -/
+theorem sepStable_others : (mwOfSep (· != .plus)).all (fun x => commentGaps.all (fun g => stableOn x.2 g.1 g.2)
+    && (mwMatch x.2 none (sample x.2 " ".toList)).isSome) = true := by decide
+
+end sepStable
 
 /-! pins of what the hand model of the token actions assumes about the live lexer -/
 /-- only these token types have an action function; QUOTE_STRING, DQUOTE_STRING, VARIABLE, SYSTEM_VARIABLE are
